@@ -6,7 +6,7 @@ import RegexVerif.Lemmas.StackTypingCases
 
 namespace RegexVerif.Lemmas.StackTypingSound
 open RegexVerif RegexVerif.Code RegexVerif.VM RegexVerif.StackTyping RegexVerif.Lemmas.VM
-open RegexVerif.Lemmas.StackTyping
+open RegexVerif.Lemmas.StackTyping RegexVerif.Lemmas.StackTypingCap
 
 section flowfacts
 variable {p : Prog} {bs : List Nat} {env : Env} {a : Assign} {s : VMState} {w : Word} {o : Op}
@@ -122,8 +122,8 @@ theorem tbody_ok (hty : TypingW p bs a) (c : Ctx p bs env s w o) (hsh : TShape p
   unfold TShape at hsh
   cases hb : s.oper.back <;> cases hb2 : s.oper.back2 <;> simp only [hb, hb2] at hsh
   · -- forward cases
-    rcases hsh with ⟨σ, ⟨core, tp, htr, hg, hv⟩, S, hS, hsub⟩ | ⟨ht, hst, hcr, hpc⟩ | ⟨ht, hstop⟩
-    · have h : FwdH p bs env a s S σ core tp := ⟨hS, hsub, htr, hg, hv⟩
+    rcases hsh with ⟨σ, ⟨core, tp, htr, hg, hv, hcap⟩, S, hS, hsub⟩ | ⟨ht, hst, hcr, hpc, hcap⟩ | ⟨ht, hstop⟩
+    · have h : FwdH p bs env a s S σ core tp := ⟨hS, hsub, htr, hg, hv, hcap⟩
       obtain ⟨succs, hflow, hsucc⟩ := flow_at hty c hS
       have nofr : ∀ {o' : Op}, frameData o' false = none → ∀ (d : List Int) (dl : Int) (τ : RTy) (cl : Int),
           frameData o' false = some d.length → subTy (erase τ) S = true →
@@ -200,7 +200,7 @@ theorem tbody_ok (hty : TypingW p bs a) (c : Ctx p bs env s w o) (hsh : TShape p
       | notone => simp only [body, hop, modeOf, hb, hb2]; exact neutral_fwd c h (flow_next hflow hsucc rfl) (nofr rfl) _ (caseChar_eff 1 rfl)
       | set => simp only [body, hop, modeOf, hb, hb2]; exact neutral_fwd c h (flow_next hflow hsucc rfl) (nofr rfl) _ (caseChar_eff 2 rfl)
       | multi => simp only [body, hop, modeOf, hb, hb2]; exact neutral_fwd c h (flow_next hflow hsucc rfl) (nofr rfl) _ (caseMulti_eff rfl)
-      | ref => simp only [body, hop, modeOf, hb, hb2]; exact neutral_fwd c h (flow_next hflow hsucc rfl) (nofr rfl) _ (caseRef_eff rfl)
+      | ref => simp only [body, hop, modeOf, hb, hb2]; exact neutral_fwd c h (flow_next hflow hsucc rfl) (nofr rfl) _ (caseRef_eff rfl hcap)
       | testref => simp only [body, hop, modeOf, hb, hb2]; exact neutral_fwd c h (flow_next hflow hsucc rfl) (nofr rfl) _ (caseTestref_eff rfl)
       | bol => simp only [body, hop, modeOf, hb, hb2]; exact neutral_fwd c h (flow_next hflow hsucc rfl) (nofr rfl) _ (caseBol_eff rfl)
       | eol => simp only [body, hop, modeOf, hb, hb2]; exact neutral_fwd c h (flow_next hflow hsucc rfl) (nofr rfl) _ (caseEol_eff rfl)
@@ -220,12 +220,12 @@ theorem tbody_ok (hty : TypingW p bs a) (c : Ctx p bs env s w o) (hsh : TShape p
       simp only [body, hop, modeOf, hb, hb2]
       have hn := (flow_target (Or.inr rfl) hflow hsucc).2 rfl
       rw [hpc] at hn
-      exact lazybranch_init ht hst hcr hpc (hn.succ (σ := []) rfl)
+      exact lazybranch_init ht hst hcr hpc hcap (hn.succ (σ := []) rfl)
     · subst hstop
       simp only [body, hop, modeOf, hb, hb2]; exact trivial
   · -- Back2 cases
-    obtain ⟨d, core, tp, S, τ, τ', cl', htr, hfd, hS, hft, hg, hv⟩ := hsh
-    have b : BackH p bs env a s o true S d core tp τ τ' cl' := ⟨htr, hfd, hS, hft, hg, hv⟩
+    obtain ⟨d, core, tp, S, τ, τ', cl', htr, hfd, hS, hft, hg, hv, hcap⟩ := hsh
+    have b : BackH p bs env a s o true S d core tp τ τ' cl' := ⟨htr, hfd, hS, hft, hg, hv, hcap⟩
     cases o with
     | branchmark => simp only [body, hop, modeOf, hb, hb2]; exact restore_back (Or.inr ⟨rfl, rfl⟩) b
     | lazybranchmark => simp only [body, hop, modeOf, hb, hb2]; exact lazybranchmark_back2 rfl b
@@ -233,8 +233,8 @@ theorem tbody_ok (hty : TypingW p bs a) (c : Ctx p bs env s w o) (hsh : TShape p
     | lazybranchcount => simp only [body, hop, modeOf, hb, hb2]; exact lazybranchcount_back2 rfl b
     | _ => simp [frameData] at hfd
   · -- Back cases
-    rcases hsh with ⟨d, core, tp, S, τ, τ', cl', htr, hfd, hS, hft, hg, hv⟩ | ⟨hpc, tp, ht⟩
-    · have b : BackH p bs env a s o false S d core tp τ τ' cl' := ⟨htr, hfd, hS, hft, hg, hv⟩
+    rcases hsh with ⟨d, core, tp, S, τ, τ', cl', htr, hfd, hS, hft, hg, hv, hcap⟩ | ⟨hpc, tp, ht⟩
+    · have b : BackH p bs env a s o false S d core tp τ τ' cl' := ⟨htr, hfd, hS, hft, hg, hv, hcap⟩
       obtain ⟨succs, hflow, hsucc⟩ := flow_at hty c hS
       cases o with
       | oneloop => simp only [body, hop, modeOf, hb, hb2]; obtain ⟨x, y, rfl⟩ := len2 hfd; exact neutral_back c (by simp) b (flow_next hflow hsucc rfl) _ (caseLoopBack_eff (by rw [htr]; rfl))
@@ -337,7 +337,7 @@ theorem tfinish_ok {s : VMState} (s1 : VMState) (e : Exit) (hcp : s1.codepos = s
         · exact Or.inl ⟨σ, hch, hs⟩
         · exact Or.inr ⟨h1, h2⟩
   | back =>
-    obtain ⟨σ, core, tp, htr, hg, hv⟩ := hT
+    obtain ⟨σ, core, tp, htr, hg, hv, hcap⟩ := hT
     simp only [finish, doBacktrack] at hold ⊢
     generalize hcl : crawlLen s1 = cl at hg
     cases hg with
@@ -375,15 +375,15 @@ theorem tfinish_ok {s : VMState} (s1 : VMState) (e : Exit) (hcp : s1.codepos = s
         simp only [hb2, ite_true, c2.facts.noback]
         rw [hb2] at h3 h5
         rw [← hcl] at h5
-        exact ⟨d, rest, tp, S, σ, τ', cl', by simp, h3, h4, h5, h6, hv⟩
+        exact ⟨d, rest, tp, S, σ, τ', cl', by simp, h3, h4, h5, h6, hv, hcap⟩
       | false =>
         simp only [hb2, Bool.false_eq_true, ite_false, c2.facts.noback2]
         rw [hb2] at h3 h5
         rw [← hcl] at h5
-        exact Or.inl ⟨d, rest, tp, S, σ, τ', cl', by simp, h3, h4, h5, h6, hv⟩
+        exact Or.inl ⟨d, rest, tp, S, σ, τ', cl', by simp, h3, h4, h5, h6, hv, hcap⟩
 
 /-- **One iteration of the interpreter loop keeps the invariant and raises neither a structural nor a discipline
-    fault** (`stackUnderflow`, `tracktoRange`, `textposRange`, `crawlUnderflow`). -/
+    fault** (`stackUnderflow`, `tracktoRange`, `textposRange`, `crawlUnderflow`, `capRange`). -/
 theorem tstep_ok (hwf : WF p bs) (hty : TypingW p bs a) {s : VMState} (hinv : TInv p bs env a s) :
     TStepOk p bs env a (step p env s) := by
   obtain ⟨w, o, c, hsh, htsh⟩ := hinv
@@ -406,11 +406,11 @@ theorem tinit_inv (hwf : WF p bs) (pos : Int) (h0 : 0 ≤ pos) (hn : pos ≤ env
     ∃ s0, init p pos = .ok s0 ∧ TInv p bs env a s0 := by
   obtain ⟨s0, hi, ⟨w, o, c, sh⟩, hcp, htr⟩ := init_inv (env := env) hwf pos h0 hn
   refine ⟨s0, hi, w, o, c, sh, ?_⟩
-  have hst : s0.stack = [] ∧ s0.cap.crawl = [] := by
+  have hst : s0.stack = [] ∧ s0.cap.crawl = [] ∧ CapOk env.len p.capsize s0.cap := by
     unfold init at hi
     cases hf : fetch p 0 with
     | error f => rw [hf] at hi; cases hi
-    | ok w0 => rw [hf] at hi; simp only [Except.map] at hi; cases hi; exact ⟨rfl, rfl⟩
+    | ok w0 => rw [hf] at hi; simp only [Except.map] at hi; cases hi; exact ⟨rfl, rfl, capOk_init _ _⟩
   unfold TShape
   have hb : s0.oper.back = false ∧ s0.oper.back2 = false := by
     unfold init at hi
@@ -423,10 +423,10 @@ theorem tinit_inv (hwf : WF p bs) (pos : Int) (h0 : 0 ≤ pos) (hn : pos ≤ env
       rw [hf] at this; cases this
       exact ⟨c.facts.noback, c.facts.noback2⟩
   rw [hb.1, hb.2]
-  exact Or.inr (Or.inl ⟨htr, hst.1, hst.2, hcp⟩)
+  exact Or.inr (Or.inl ⟨htr, hst.1, hst.2.1, hcp, hst.2.2⟩)
 
-/-- **no fault but `capRange`, ever**: a run from a state satisfying the invariant ends in no structural fault and in
-    none of `stackUnderflow`, `tracktoRange`, `textposRange`, `crawlUnderflow` -/
+/-- **no fault, ever**: a run from a state satisfying the invariant ends in no structural fault and in
+    none of `stackUnderflow`, `tracktoRange`, `textposRange`, `crawlUnderflow`, `capRange` -/
 theorem trun_ok (hwf : WF p bs) (hty : TypingW p bs a) : ∀ (fuel : Nat) (s : VMState), TInv p bs env a s →
     ∀ f, (run p env fuel s).1 = .fault f → f.structural = false ∧ disc f = false := by
   intro fuel
@@ -446,6 +446,10 @@ theorem trun_ok (hwf : WF p bs) (hty : TypingW p bs a) : ∀ (fuel : Nat) (s : V
     | next s' chk =>
       rw [hstep] at h hst
       exact ih s' hst f h
+
+/-- the thirteen fault kinds are the eight structural and the five discipline faults -/
+theorem no_fault_left (f : Fault) (h1 : f.structural = false) (h2 : disc f = false) : False := by
+  cases f <;> first | (exact absurd h1 (by decide)) | (exact absurd h2 (by decide))
 
 end stepping
 
